@@ -47,12 +47,17 @@ func flPayloads(delim string) []flPayload {
 		{"rich", map[string]string{"a": ` q"uo` + delim + `te `, "b": "multi\nline é世\t", "H": "H" + delim + `"`, "F": "F é"}},
 		{"long", map[string]string{"a": long, "b": " " + long + " ", "H": "H" + long, "F": "F"}},
 		{"huge", map[string]string{"a": huge, "b": "b", "H": "H", "F": "F" + huge}},
+		{"rdq", map[string]string{"a": `x"1`, "b": `"y" z`, "H": `H"`, "F": `F""f`}},
 	}
 }
 
+// c06RDQ: the "replace_double_quotes" rendering - the schema option is on, fields are written raw (a double quote is an
+// ordinary character of the input) and every double quote arrives as a single quote
+var c06RDQ = false
+
 func csvQuote(f, delim string) string {
-	if f == "" {
-		return ""
+	if f == "" || c06RDQ {
+		return f
 	}
 	if strings.ContainsAny(f, "\"\r\n") || strings.Contains(f, delim) || strings.HasPrefix(f, " ") {
 		return `"` + strings.ReplaceAll(f, `"`, `""`) + `"`
@@ -105,8 +110,12 @@ func csv2Schema(c *c06Case, delim string) string {
 	if c.Decl.Pre {
 		pre = `{"name": "P", "header": "^H", "footer": "^F", "min": 0, "max": 1, "columns": [` + strings.Join(cols, ", ") + `]}, `
 	}
+	rdq := ""
+	if c06RDQ {
+		rdq = `"replace_double_quotes": true, `
+	}
 	return `{"parser_settings": {"version": "omni.2.1", "file_format_type": "csv2"},
- "file_declaration": {"delimiter": ` + jstr(delim) + `, "records": [` + pre + `{` + rec + `, "is_target": true, "columns": [` + strings.Join(cols, ", ") + `]}]},
+ "file_declaration": {` + rdq + `"delimiter": ` + jstr(delim) + `, "records": [` + pre + `{` + rec + `, "is_target": true, "columns": [` + strings.Join(cols, ", ") + `]}]},
  "transform_declarations": {"FINAL_OUTPUT": {"object": {"x": {"const": "1"}}}}}`
 }
 
@@ -195,8 +204,12 @@ func fixedLegacySchema(c *c06Case) string {
 }
 
 func csvLegacySchema(delim string) string {
+	rdq := ""
+	if c06RDQ {
+		rdq = `"replace_double_quotes": true, `
+	}
 	return `{"parser_settings": {"version": "omni.2.1", "file_format_type": "csv"},
- "file_declaration": {"delimiter": ` + jstr(delim) + `, "data_row_index": 1, "columns": [{"name": "c1"}, {"name": "c2"}]},
+ "file_declaration": {` + rdq + `"delimiter": ` + jstr(delim) + `, "data_row_index": 1, "columns": [{"name": "c1"}, {"name": "c2"}]},
  "transform_declarations": {"FINAL_OUTPUT": {"object": {"x": {"const": "1"}}}}}`
 }
 
@@ -281,6 +294,7 @@ func c06Replay(args []string) int {
 				M{"format": format, "input": in, "schema": schema, "expected_end": expEnd, "end": end})
 		}
 	}
+	var plSeen flPayload
 	err := readLines(args[0], func(line []byte) error {
 		var c c06Case
 		if e := json.Unmarshal(line, &c); e != nil {
@@ -294,6 +308,20 @@ func c06Replay(args []string) int {
 			pi = pi % 2 // mostly plain / rich; long and huge payloads now and then
 		}
 		pl := pls[pi]
+		if r.Intn(8) == 0 {
+			pl = pls[len(pls)-1]
+		}
+		c06RDQ = pl.name == "rdq"
+		if c06RDQ { // what the transform must see: every double quote as a single quote
+			seen := map[string]string{}
+			for k, v := range pl.m {
+				seen[k] = strings.ReplaceAll(v, `"`, "'")
+			}
+			defer func() { c06RDQ = false }()
+			plSeen = flPayload{"rdq", seen}
+		} else {
+			plSeen = pl
+		}
 		crlf, lastTerm := r.Intn(3) == 0, r.Intn(3) != 0
 		fixedPayloadAlt = r.Intn(2) == 0
 		expect := func(p flPayload, fixed bool) []obsRec {
@@ -339,7 +367,7 @@ func c06Replay(args []string) int {
 			var got []obsRec
 			var end, detail string
 			pv, _ := guarded(0, func() { got, end, detail = runFlat(sch, input, len(c.Lines)+3) })
-			exp := expect(pl, false)
+			exp := expect(plSeen, false)
 			sum.eval(c.Nt || pl.name != "plain", M{"f": "csv2", "i": input[:min(len(input), 200)], "s": schema})
 			if pv != "" || end != c.End || !same(got, exp) {
 				report("csv2-"+pl.name, "csv2", input, schema, exp, c.End, got, end, detail+pv)
@@ -401,7 +429,7 @@ func c06Replay(args []string) int {
 				var o obsRec
 				for k, f := range ln {
 					if k < 2 {
-						o = append(o, [2]string{fmt.Sprintf("c%d", k+1), pl.m[f]})
+						o = append(o, [2]string{fmt.Sprintf("c%d", k+1), plSeen.m[f]})
 					}
 				}
 				exp = append(exp, o)
